@@ -49,7 +49,10 @@ func (e *Exec) fillCell(c *Cell, name string) {
 		}
 		return
 	}
-	if w, _, ok := intWidth(c.typ); ok {
+	if w, signed, ok := intWidth(c.typ); ok {
+		if signed {
+			e.b.SignedVars[name] = true
+		}
 		c.v = e.input(name, w)
 		return
 	}
@@ -172,6 +175,9 @@ func (e *Exec) zzIntrinsic(name string, args []Value) (Value, bool) {
 	switch name {
 	case "zzU8", "zzU16", "zzU32", "zzU64", "zzI8", "zzI16", "zzI32", "zzI64", "zzInt", "zzUint":
 		w := map[string]int{"zzU8": 8, "zzU16": 16, "zzU32": 32, "zzU64": 64, "zzI8": 8, "zzI16": 16, "zzI32": 32, "zzI64": 64, "zzInt": 64, "zzUint": 64}[name]
+		if name[2] == 'I' {
+			b.SignedVars[e.argStr(args[0])] = true
+		}
 		return e.input(e.argStr(args[0]), w), true
 	case "zzBool":
 		return b.Eq(e.input(e.argStr(args[0]), 1), b.ConstU(1, 1)), true
@@ -299,9 +305,7 @@ func (e *Exec) zzIntrinsic(name string, args []Value) (Value, bool) {
 	case "zzWU":
 		return b.Bv2Int(e.termOf(args[0])), true
 	case "zzWS":
-		t := e.termOf(args[0])
-		w := int(t.S)
-		return b.Ite(b.Slt(t, b.ConstU(w, 0)), b.Sub(b.Bv2Int(t), b.IntConst(pow2(w))), b.Bv2Int(t)), true
+		return b.SInt(e.termOf(args[0])), true
 	case "zzWAdd":
 		return b.Add(e.termOf(args[0]), e.termOf(args[1])), true
 	case "zzWSub":
